@@ -56,6 +56,25 @@ func newThrGroup(run *mon.Run, r *rand.Rand, n, t int, refPub int) (*thrGroup, b
 			return nil, false
 		}
 	}
+	// the dealt polynomial is a random one of degree exactly t: its t+1 coefficients (recovered from the
+	// first t+1 shares) are all non-zero and pairwise distinct - a zero, repeated or missing coefficient
+	// has probability about t^2 / 2^255 for a polynomial drawn as documented
+	if t <= 40 {
+		co := polyCoeffs(xs[:t+1], g.ks[:t+1])
+		seen := map[string]int{}
+		for i, c := range co {
+			if c.Sign() == 0 {
+				run.Violate("C06:keygen-polynomial:zero-coefficient", fmt.Sprintf("BLSThresholdKeyGen(%d,%d): coefficient a_%d of the dealt polynomial is zero (the polynomial is documented as random of degree t with non-zero a_0 and a_t)", n, t, i), rep)
+				break
+			}
+			if j, dup := seen[c.String()]; dup {
+				run.Violate("C06:keygen-polynomial:repeated-coefficient", fmt.Sprintf("BLSThresholdKeyGen(%d,%d): coefficients a_%d and a_%d of the dealt polynomial are equal", n, t, j, i), rep)
+				break
+			}
+			seen[c.String()] = i
+		}
+		run.Count("keygen.polynomials-recovered", 1)
+	}
 	// each private share matches its public share (library Equals always; reference [sk]g2 on a sample)
 	cv := measuredConv()
 	for i := range g.sks {
@@ -1197,4 +1216,38 @@ func c06Errors(run *mon.Run, r *rand.Rand, g *thrGroup) {
 		}
 		run.Shape("surplus")
 	}
+}
+
+// polyCoeffs returns the coefficients a_0..a_k (mod r) of the polynomial of degree <= k through the k+1
+// points (xs[i], ys[i]), by Newton's divided differences expanded into the monomial basis.
+func polyCoeffs(xs []int64, ys []*big.Int) []*big.Int {
+	k := len(xs)
+	dd := make([]*big.Int, k)
+	for i := range dd {
+		dd[i] = new(big.Int).Set(ys[i])
+	}
+	for lvl := 1; lvl < k; lvl++ {
+		for i := k - 1; i >= lvl; i-- {
+			num := ref.Fr.Sub(dd[i], dd[i-1])
+			den := ref.Fr.Inv(new(big.Int).Mod(big.NewInt(xs[i]-xs[i-lvl]), ref.R))
+			dd[i] = ref.Fr.Mul(num, den)
+		}
+	}
+	// P(x) = dd[0] + dd[1](x-x0) + dd[2](x-x0)(x-x1) + ... ; expand from the inside out (Horner)
+	co := []*big.Int{new(big.Int).Set(dd[k-1])}
+	for i := k - 2; i >= 0; i-- {
+		// co = co * (x - xs[i]) + dd[i]
+		next := make([]*big.Int, len(co)+1)
+		for j := range next {
+			next[j] = new(big.Int)
+		}
+		mx := new(big.Int).Mod(big.NewInt(-xs[i]), ref.R)
+		for j, c := range co {
+			next[j+1] = ref.Fr.Add(next[j+1], c)
+			next[j] = ref.Fr.Add(next[j], ref.Fr.Mul(c, mx))
+		}
+		next[0] = ref.Fr.Add(next[0], dd[i])
+		co = next
+	}
+	return co
 }
